@@ -1,4 +1,5 @@
 import Nri.Model.CpuAlloc
+import Nri.Gen.CpuAllocLoops
 import Nri.Gen.CpuAllocFacts
 /-!
 C08 — CPU allocator contract: exact count, subset, set bookkeeping.
@@ -165,5 +166,111 @@ theorem release_contract (from0 : List Nat) (n : Nat) (h0 : from0.Nodup) (hn : n
 -- non-vacuity: a concrete run
 example : admissible ⟨[0,1,2,3,4,5], [], 4⟩ [[0,1],[4,5]] = true := by decide
 example : takeAll ⟨[0,1,2,3,4,5], [], 4⟩ [[0,1],[4,5]] = ⟨[2,3], [0,1,4,5], 0⟩ := by decide
+
+
+/-! ### the stage bodies as they are written (loops over the sorted candidates), for EVERY candidate order -/
+
+/-- candidate sets that are duplicate-free, inside `from`, and pairwise disjoint - what the idle-package /
+idle-core filters produce on a well-formed topology (packages, and cores, partition the CPUs) -/
+def Candidates (s : State) (cands : List (List Nat)) : Prop :=
+  (∀ c ∈ cands, c.Nodup ∧ ∀ x ∈ c, x ∈ s.from_) ∧ cands.Pairwise (fun a b => ∀ x, x ∈ a → x ∉ b)
+
+theorem candidates_after_take (s : State) (c : List Nat) (cs : List (List Nat)) (h : Candidates s (c :: cs)) :
+    Candidates (take s c) cs := by
+  obtain ⟨hmem, hpw⟩ := h
+  rw [List.pairwise_cons] at hpw
+  refine ⟨?_, hpw.2⟩
+  intro d hd
+  refine ⟨(hmem d (List.mem_cons_of_mem _ hd)).1, ?_⟩
+  intro x hx
+  simp only [take, List.mem_filter, Bool.not_eq_true', List.contains_eq_mem, decide_eq_false_iff_not]
+  refine ⟨(hmem d (List.mem_cons_of_mem _ hd)).2 x hx, ?_⟩
+  intro hxc
+  exact hpw.1 d hd x hxc hx
+
+/-- **takeIdlePackages / takeIdleCores as written satisfy the stage contract for every sort order**: the
+loop body (take the candidate iff it fits, stop when the count is exhausted) preserves "result ⊎ from =
+original set" and "count + |result| = n" whatever order the comparator put the candidates in -/
+theorem foldStage_inv (from0 : List Nat) (n : Nat) (h0 : from0.Nodup) (cands : List (List Nat)) :
+    ∀ s, Inv from0 n s → Candidates s cands → Inv from0 n (foldStage cands s) := by
+  induction cands with
+  | nil => intro s h _; exact h
+  | cons c cs ih =>
+    intro s h hc
+    simp only [foldStage]
+    split
+    · rename_i hfit
+      have hinv' := take_inv from0 n h0 s c h (hc.1 c List.mem_cons_self).1 (hc.1 c List.mem_cons_self).2 hfit
+      split
+      · exact hinv'
+      · exact ih _ hinv' (candidates_after_take s c cs hc)
+    · refine ih s h ⟨fun d hd => hc.1 d (List.mem_cons_of_mem _ hd), ?_⟩
+      have := hc.2
+      rw [List.pairwise_cons] at this
+      exact this.2
+
+theorem foldStage_ok (from0 : List Nat) (n : Nat) (h0 : from0.Nodup) (s : State) (cands : List (List Nat))
+    (hc : Candidates s cands) : StageOK from0 n s (foldStage cands s) :=
+  fun h => foldStage_inv from0 n h0 cands s h hc
+
+/-- **takeIdleThreads as written**: with `cnt > 0` (the guard in `allocate()`), distinct candidate CPUs taken from
+`from`, the loop preserves the invariant and ends with `cnt = 0` whenever there are at least `cnt` candidates -/
+theorem threadStage_inv (from0 : List Nat) (n : Nat) (h0 : from0.Nodup) (order : List Nat) :
+    ∀ s, Inv from0 n s → 0 < s.cnt → order.Nodup → (∀ x ∈ order, x ∈ s.from_) →
+      Inv from0 n (threadStage order s) ∧ (s.cnt ≤ order.length → (threadStage order s).cnt = 0) := by
+  induction order with
+  | nil => intro s h hpos _ _; exact ⟨h, fun hle => by simp at hle; omega⟩
+  | cons x xs ih =>
+    intro s h hpos hnd hsub
+    rw [List.nodup_cons] at hnd
+    have hinv' := take_inv from0 n h0 s [x] h (by simp) (by intro y hy; simp at hy; subst hy; exact hsub _ List.mem_cons_self) (by simp; omega)
+    simp only [threadStage]
+    split
+    · rename_i hz
+      exact ⟨hinv', fun _ => hz⟩
+    · rename_i hnz
+      have hcnt : (take s [x]).cnt = s.cnt - 1 := by simp [take]
+      have hsub' : ∀ y ∈ xs, y ∈ (take s [x]).from_ := by
+        intro y hy
+        simp only [take, List.mem_filter, Bool.not_eq_true', List.contains_eq_mem, decide_eq_false_iff_not, List.mem_singleton]
+        exact ⟨hsub y (List.mem_cons_of_mem _ hy), fun e => hnd.1 (e ▸ hy)⟩
+      have := ih (take s [x]) hinv' (by omega) hnd.2 hsub'
+      refine ⟨this.1, ?_⟩
+      intro hle
+      apply this.2
+      simp only [List.length_cons] at hle
+      omega
+
+-- the loops on a concrete machine: two idle 2-thread cores and a busy one, 3 CPUs wanted, the comparator
+-- put the cores in the order [[4,5],[0,1]]: core {4,5} is taken, core {0,1} no longer fits, the thread
+-- stage takes one more CPU
+example : foldStage [[4, 5], [0, 1]] ⟨[0, 1, 2, 4, 5], [], 3⟩ = ⟨[0, 1, 2], [4, 5], 1⟩ := by decide
+example : threadStage [2, 0, 1] ⟨[0, 1, 2], [4, 5], 1⟩ = ⟨[0, 1], [4, 5, 2], 0⟩ := by decide
+
+end Nri.CpuAlloc
+
+/-! ### source shapes the model was written against (CpuAllocLoops.lean; the regenerated facts must equal them) -/
+namespace Nri.CpuAlloc.Expectgen_cpualloc_loops_ok
+def takeIdlePackages : List String := ["offline := a.sys.Offlined()", "pkgs := pickIds(a.sys.PackageIDs(), func(id idset.ID) bool { cset := a.topology.pkg[id].Difference(offline) if a.prefer < NumCPUPriorities { cset = cset.Intersection(a.topology.cpuPriorities[a.prefer]) } return cset.Intersection(a.from).Equals(cset) })", "range pkgs", "> cset := a.topology.pkg[id].Difference(offline)", "> if a.prefer < NumCPUPriorities", "> > cset = cset.Intersection(a.topology.cpuPriorities[a.prefer])", "> if a.cnt >= cset.Size()", "> > a.result = a.result.Union(cset)", "> > a.from = a.from.Difference(cset)", "> > a.cnt -= cset.Size()", "> > if a.cnt == 0", "> > > break"]
+def takeIdleCores : List String := ["offline := a.sys.Offlined()", "cores := pickIds(a.sys.CPUIDs(), func(id idset.ID) bool { cset := a.topology.core[id].Difference(offline) if cset.IsEmpty() { return false } return cset.Intersection(a.from).Equals(cset) && cset.List()[0] == int(id) })", "range cores", "> cset := a.topology.core[id].Difference(offline)", "> if a.cnt >= cset.Size()", "> > a.result = a.result.Union(cset)", "> > a.from = a.from.Difference(cset)", "> > a.cnt -= cset.Size()", "> > if a.cnt == 0", "> > > break"]
+def takeIdleThreads : List String := ["offline := a.sys.Offlined()", "cores := pickIds(a.sys.CPUIDs(), func(id idset.ID) bool { return a.from.Difference(offline).Contains(int(id)) })", "range cores", "> cset := a.topology.core[id].Difference(offline)", "> cset = cpuset.New(int(id))", "> a.result = a.result.Union(cset)", "> a.from = a.from.Difference(cset)", "> a.cnt -= cset.Size()", "> if a.cnt == 0", "> > break"]
+def takeAny : List String := ["cpus := a.from.List()", "if len(cpus) >= a.cnt", "> cset := cpuset.New(cpus[0:a.cnt]...)", "> a.result = a.result.Union(cset)", "> a.from = a.from.Difference(cset)", "> a.cnt = 0"]
+def allocate : List String := ["if a.sys != nil", "> if (a.flags & AllocIdlePackages) != 0", "> > a.takeIdlePackages()", "> if len(a.topology.kind) > 1", "> > if a.cnt > 0 && (a.flags&AllocIdleClusters) != 0", "> > > a.takeIdleClusters()", "> > if a.cnt > 0 && (a.flags&AllocCacheGroups) != 0", "> > > a.takeCacheGroups()", "> else", "> > if a.cnt > 0 && (a.flags&AllocCacheGroups) != 0", "> > > a.takeCacheGroups()", "> if a.cnt > 0 && (a.flags&AllocIdleCores) != 0", "> > a.takeIdleCores()", "> if a.cnt > 0", "> > a.takeIdleThreads()", "else", "> a.takeAny()", "if a.cnt == 0", "> return a.result", "return cpuset.New()"]
+def allocateCpus : List String := ["var result cpuset.CPUSet", "switch", "> case from.Size() < cnt", "> > result, err = cpuset.New(), fmt.Errorf(…)", "> case from.Size() == cnt", "> > result, err, *from = from.Clone(), nil, cpuset.New()", "> default", "> > a := newAllocatorHelper(ca.sys, ca.topologyCache)", "> > range options", "> > > if err := o(a); err != nil", "> > > > return cpuset.New(), err", "> > a.from = from.Clone()", "> > a.cnt = cnt", "> > result, err, *from = a.allocate(), nil, a.from.Clone()", "return result, err"]
+def releaseCpus : List String := ["oset := from.Clone()", "result, err := ca.allocateCpus(from, from.Size()-cnt, options...)", "return result, err"]
+end Nri.CpuAlloc.Expectgen_cpualloc_loops_ok
+
+namespace Nri.CpuAlloc
+
+/-- the regenerated statement skeletons of the stage bodies are the ones the loop models follow: takeIdlePackages / takeIdleCores build their candidates by filter (set restricted to online CPUs - and to the preferred priority class for packages - entirely inside from; a core is represented by its first thread), then take a candidate iff it still fits and break once the count is exhausted (foldStage); takeIdleThreads takes single CPUs of from until the count is exhausted (threadStage); takeAny; the dispatcher allocate() with its cnt > 0 guards and 'result iff cnt == 0'; the front ends allocateCpus (<, ==, default with write-back of the remaining set) and ReleaseCpus (= allocateCpus(from, size - cnt)) -/
+theorem gen_cpualloc_loops_ok :
+    Nri.Gen.CpuAllocLoops.takeIdlePackages = Expectgen_cpualloc_loops_ok.takeIdlePackages ∧
+    Nri.Gen.CpuAllocLoops.takeIdleCores = Expectgen_cpualloc_loops_ok.takeIdleCores ∧
+    Nri.Gen.CpuAllocLoops.takeIdleThreads = Expectgen_cpualloc_loops_ok.takeIdleThreads ∧
+    Nri.Gen.CpuAllocLoops.takeAny = Expectgen_cpualloc_loops_ok.takeAny ∧
+    Nri.Gen.CpuAllocLoops.allocate = Expectgen_cpualloc_loops_ok.allocate ∧
+    Nri.Gen.CpuAllocLoops.allocateCpus = Expectgen_cpualloc_loops_ok.allocateCpus ∧
+    Nri.Gen.CpuAllocLoops.releaseCpus = Expectgen_cpualloc_loops_ok.releaseCpus := by
+  and_intros <;> rfl
 
 end Nri.CpuAlloc
